@@ -1,6 +1,7 @@
 package rel
 
 import (
+	"fmt"
 	"sort"
 )
 
@@ -11,10 +12,17 @@ func Rank(s Set, rankerf func(v Tuple) (Tuple, error)) (Set, error) {
 	}
 	entries := []rankerEntry{}
 	for e := s.Enumerator(); e.MoveNext(); {
-		input := e.Current().(Tuple)
+		input, is := e.Current().(Tuple)
+		if !is {
+			return nil, fmt.Errorf("rank: not a relation; has non-tuple element %v", e.Current())
+		}
 		rankers, err := rankerf(input)
 		if err != nil {
 			return nil, err
+		}
+		if len(entries) > 0 && !rankers.Names().Equal(entries[0].ranker.Names()) {
+			return nil, fmt.Errorf("rank: inconsistent rank attributes: %v vs %v",
+				entries[0].ranker.Names(), rankers.Names())
 		}
 		entries = append(entries, rankerEntry{input, rankers})
 	}
